@@ -145,6 +145,19 @@ CHECKS = {
         "not modelled; scalar attributes only through CrossHair-free concrete rules; TriangularMesh vertices/faces validation not covered here.",
         design="3/C17",
     ),
+    "C15": dict(
+        engine="E2",
+        technique="symbolic execution of the real BHJM_* wrappers and kernels over z3 terms that carry a definedness formula (division by a "
+        "possibly-zero term, log<=0, sqrt<0, leaf called outside its domain), selected through np.where / mask assignment like a NaN; "
+        "per feasible path: precondition and not documented-singular implies defined, as an SMT obligation",
+        text="Bounded symbolic model checking: on every feasible mask path of every wrapper (Cuboid, Cylinder, CylinderSegment incl. the "
+        "full-angle routing, Sphere, Tetrahedron, TriangularMesh, Triangle, Circle, Polyline, Dipole) all B and H components are defined for "
+        "ALL real inputs of the path - faces, edges, corners, axis, wire, zero excitation are points the solver is free to pick; a "
+        "reachability twin (bare cuboid kernel without the wrapper masks) must be flagged undefined.",
+        note="Real arithmetic (no overflow/underflow/cancellation); iterative elliptic kernels and the cylinder-segment case evaluators are cut with "
+        "their argument preconditions as obligations; termination of the elliptic loops and the inside of the triangle kernel are not decided.",
+        design="3/C15",
+    ),
 }
 
 NOT_APPLICABLE = {
